@@ -263,13 +263,13 @@ pub fn replay(v: &Value) -> Outcome {
 }
 
 pub fn run(env: &Env, known: &Known, started: Instant, replayed: u64, replay_violations: Vec<Violation>) -> i32 {
-    let cfg = ChoiceRun { env, pid: PID, part: "well-typed", cases: env.tier.pick(12_000, 400_000), max_len: 3000, known };
+    let cfg = ChoiceRun { env, pid: PID, part: "well-typed", cases: env.tier.pick(40_000, 400_000), max_len: 3000, known };
     let mut rr = run_choices(&cfg, run_accept);
     let cfg = ChoiceRun { env, pid: PID, part: "less-than-probe", cases: env.tier.pick(3_000, 60_000), max_len: 3000, known };
     let r3 = run_choices(&cfg, run_accept_lt_probe);
     rr.stats.merge(r3.stats);
     rr.violations.extend(r3.violations);
-    let cfg = ChoiceRun { env, pid: PID, part: "single-edit", cases: env.tier.pick(30_000, 800_000), max_len: 3000, known };
+    let cfg = ChoiceRun { env, pid: PID, part: "single-edit", cases: env.tier.pick(90_000, 800_000), max_len: 3000, known };
     let r2 = run_choices(&cfg, run_reject);
     // the edit-kind x context x site matrix: an empty cell is a generator bug, not a pass
     let matrix: std::collections::BTreeMap<String, u64> = r2.stats.labels.iter().filter(|(k, _)| k.starts_with("edit:") || k.starts_with("ctx:") || k.starts_with("site:")).map(|(k, v)| (k.clone(), *v)).collect();
